@@ -112,7 +112,21 @@ def _mk(segs):
     return OSeq(segs)
 
 
-INTRINSICS = {"seq_map": i_seq_map, "seq_filter": i_seq_filter, "seq_flatmap": i_seq_flatmap}
+def i_opaque(I, args, kwargs):
+    """opaque(tag, *args): the result of an unmodelled computation, a function of its arguments only
+    (used by the specs of callees that are trusted / verified elsewhere)"""
+    from .values import Opaque
+    return Opaque(args[0], list(args[1:]))
+
+
+def i_ghost_call(I, args, kwargs):
+    """ghost_call(tag, *args): records an observable external effect (a file written, ...) in the ghost log of the
+    current side (function under verification / reference); the two logs must be equal"""
+    I.__dict__.setdefault("ghost", []).append([args[0]] + list(args[1:]))
+    return None
+
+
+INTRINSICS = {"ghost_call": i_ghost_call, "seq_map": i_seq_map, "seq_filter": i_seq_filter, "seq_flatmap": i_seq_flatmap, "opaque": i_opaque}
 
 
 # ------------------------------------------------------------------ loop rule
